@@ -57,4 +57,25 @@ var Presets = map[string]*Config{
 			Rename:       map[string]string{"parse": "parse"},
 		}
 	}(),
+	"imports": func() *Config {
+		lib := bytesLib()
+		lib["bytes.TrimSpace"] = LibFn{Lean: "GIV.Build.trimSpace", Ret: TBytes}
+		lib["strings.TrimSpace"] = LibFn{Lean: "GIV.Build.trimSpace", Ret: TStr}
+		lib["strings.Fields"] = LibFn{Lean: "GIV.Build.fields", Ret: &Type{K: KList, Elem: TStr}}
+		lib["strings.Split"] = LibFn{Lean: "GIV.Build.splitOn 95", Ret: &Type{K: KList, Elem: TStr}, FixedArgs: []string{"", "\"_\""}}
+		lib["unicode.IsLetter"] = LibFn{Lean: "isLetter", Ret: TBool}
+		lib["unicode.IsDigit"] = LibFn{Lean: "isDigit", Ret: TBool}
+		return &Config{
+			Lib: lib,
+			Globals: map[string]Global{
+				"KnownOS":   {Lean: "GIV.Build.knownOS", T: TMap},
+				"KnownArch": {Lean: "GIV.Build.knownArch", T: TMap},
+				"UnixOS":    {Lean: "GIV.Build.unixOS", T: TMap},
+			},
+			Structs:     map[string]*Struct{},
+			Fuel:        map[string]string{"matchTags#rec": "name.length + 1"},
+			ExtraParams: []Param{{Lean: "isLetter", Type: "Int → Bool"}, {Lean: "isDigit", Type: "Int → Bool"}},
+			RuneFn:      "GIV.Build.runes",
+		}
+	}(),
 }
